@@ -574,50 +574,3 @@ fn c05_add_merge_braid_error() {
     mem::forget(trx);
 }
 
-
-// ------------------------------------------------------------------ C04: hello head pairing ---
-
-/// ⟦synthetic_head⟧ on four heads: the address it advertises is the one obtained by the SHARED
-/// pairwise fold (`fold_merge_pairs`: pop two from the front, push the merge on the back) — the
-/// pairing `collapse_heads` materialises: merge(merge(h0,h1), merge(h2,h3)). Policy merge is
-/// the mock's deterministic function of the normalised merge ids; nothing is written.
-#[kani::proof]
-#[kani::unwind(12)]
-fn c04_synthetic_head_pairs_like_collapse_4() {
-    let mut sp = MSP::any();
-    sp.storage.quiet = true;
-    let ps = MPS::new(true, false);
-    let la = |b: u8, mc: u64| LocatedAddress { id: id_of(b), segment: crate::SegmentIndex::new(b as u64), max_cut: MaxCut::new(mc) };
-    let hs = [la(11, 5), la(12, 6), la(13, 4), la(14, 7)];
-    let mut heads = HeadSet::default();
-    let mut i = 0;
-    while i < 4 {
-        heads.push(hs[i]);
-        i += 1;
-    }
-    let got = match synthetic_head(&sp.storage, &ps, &heads) {
-        Ok(a) => a,
-        Err(_) => panic!("synthetic_head failed on a four-head set"),
-    };
-    // reference: the queue pairing, with the same policy merge
-    let merge = |l: Address, r: Address| -> Address {
-        let ids = match MergeIds::new(l, r) {
-            Some(x) => x,
-            None => panic!("equal ids"),
-        };
-        let mut buf = [0u8; 8];
-        match ps.policy.merge(&mut buf, ids) {
-            Ok(c) => match c.address() {
-                Ok(a) => a,
-                Err(_) => panic!("address"),
-            },
-            Err(_) => panic!("merge"),
-        }
-    };
-    let v = heads.as_slice();
-    let m01 = merge(v[0].address(), v[1].address());
-    let m23 = merge(v[2].address(), v[3].address());
-    let want = merge(m01, m23);
-    assert!(got.id == want.id && got.max_cut == want.max_cut);
-    assert!(storage_mutations() == 0);
-}
